@@ -2,7 +2,8 @@ import FlowRecord.Drive.Util
 import FlowRecord.Model.Writers
 /-!
 Driver for C17.
-* `{"op":"c17.life","adapter":a,"hist":"wwfcx"}`  (w = write of the next record index, f = flush, c = close, x = with-exit)
+* `{"op":"c17.life","adapter":a,"hist":"wwfcx"}`  (w = write of the next record index, f = flush, c = close, x = with-exit,
+  e / E = a write the adapter refuses, without / with the commit a new record type causes first)
 * `{"op":"c17.split","adapter":a,"limit":n,"hist":"www…c","base":name,"suffixLen":k}`
 * `{"op":"c17.rotname","name":n,"stamp":s,"seq":k}`
 * `{"op":"c17.tmpl","fs":[[name,[r…]]…],"writes":[[path,stamp,r]…]}`
@@ -20,6 +21,8 @@ def opsOfHist (h : String) : Except String (List (Op Nat)) :=
     | 'f' :: rest => do let r ← go rest k; pure (Op.flush :: r)
     | 'c' :: rest => do let r ← go rest k; pure (Op.close :: r)
     | 'x' :: rest => do let r ← go rest k; pure (Op.exit :: r)
+    | 'e' :: rest => do let r ← go rest (k + 1); pure (Op.bad false :: r)    -- a refused write (consumes a record index)
+    | 'E' :: rest => do let r ← go rest (k + 1); pure (Op.bad true :: r)     -- ... of a record type that was new
     | c :: _ => throw s!"bad history character {c}"
   go h.toList 0
 
